@@ -156,7 +156,7 @@ def gate(paths=None):
                 depth += 1
             elif re.match(r"\s*End\s+\w+", line) and depth > 0:
                 depth -= 1
-            elif depth == 0 and re.match(r"\s*(Variable|Variables|Hypothesis|Hypotheses)\b", line):
+            elif depth == 0 and re.match(r"\s*(Variable|Variables|Hypothesis|Hypotheses|Context)\b", line):
                 hits.append("%s:%d: %s (outside a Section)" % (rel, ln, line.strip()))
     return hits
 
